@@ -64,3 +64,23 @@ prop("C02", "A crash at any instant loses no source write; transactional mode re
        "quick": {"checks": 64, "shards": 16, "timeout": 600},
        "thorough": {"checks": 1600, "shards": 16, "timeout": 5400}}],
      CRASH_ASSUME)
+
+prop("C09", "A source transaction reaches the target as one atomic transaction", "fault_enumeration",
+     "a case = transactional, resume-enabled configuration (batch size mostly 1-4) x stream biased to MULTI..EXEC groups of length 0,1,2,3,4,5,8,12 (adjacent groups, groups next to SELECT, SELECT inside a group) x schedule; "
+     "the fault dimension is enumerated as in C02: every target-request crash point and every graceful-stop instant of the uncrashed run, each followed by a restart to the end. "
+     "non-trivial = distinct case with a source transaction that is longer than the batch size or with a fault that hit while a target MULTI was open. "
+     "Oracle per run and per source transaction T (commands aligned with the reference sequence): all executed commands of T lie in ONE target execution group, that group contains ALL of T, and the same group writes a resume position >= the end offset of T's EXEC.",
+     [{"pkg": "c09", "test": "TestC09",
+       "quick": {"checks": 48, "shards": 16, "timeout": 600},
+       "thorough": {"checks": 1200, "shards": 16, "timeout": 5400}}],
+     CRASH_ASSUME + ["the double executes everything queued by one EXEC under one execution-group id (atomic, like Redis)"])
+
+prop("C07", "The stored resume position only moves forward along command boundaries", "exploration",
+     "a case = resume-enabled configuration (both checkpoint modes, blocking/pipelined) x stream x schedule with idle gaps (before the first item, between items, 6% longer than the keep-alive ticker) x a chain of 1-3 faults (target crash / graceful stop at a drawn request index) "
+     "x optional pure-idle run after the last restart x optional idle tail after the end. non-trivial = distinct case in which a checkpoint write was executed before the first data command of a run that started from a stored position (ticker/keep-alive/shutdown flush ahead of the first item). "
+     "Oracle over the ordered list of values written to <runid>_offset in all runs (from the target log): every value is the run's start offset or a command-end offset of the reference stream; the list never decreases; no value < 0 while a value >= 0 is stored; "
+     "a restart never reads 'none' (or another value than the last one stored) once a position >= 0 has been stored.",
+     [{"pkg": "c07", "test": "TestC07",
+       "quick": {"checks": 480, "shards": 16, "timeout": 600},
+       "thorough": {"checks": 16000, "shards": 16, "timeout": 5400}}],
+     CRASH_ASSUME)
